@@ -161,8 +161,9 @@ HARNESSES = [
         quick=R.tier(cells=R.int_cells("VP_K", 0, 4), env={"VP_N": 3, "VP_M": 2}, timeout=300,
                      bound="1-3 backed-up files out of 4 data files, 2 operations from {nothing, modify i, delete i} with "
                            "any new contents <=2 chars, restore of 5 task selections"),
-        thorough=R.tier(cells=R.int_cells("VP_K", 0, 4), env={"VP_N": 4, "VP_M": 3}, timeout=1800,
-                        bound="1-4 backed-up files, 3 operations"),
+        thorough=R.tier(cells=R.int_cells("VP_K", 0, 4), env={"VP_N": 4, "VP_M": 2}, timeout=1800,
+                        bound="1-4 backed-up files, 2 operations (3 operations on 4 files did not exhaust in 1800 CPU-s "
+                              "per cell: 9^3 operation triples)"),
         what="restore returns every selected backed-up file to its content at backup time, touches nothing else, "
              "is idempotent; an existing backup name is never overwritten",
         oracle="inline frame/restore predicate", stubs=_STUBS,
